@@ -624,4 +624,18 @@ V("C11", "encode-check-on-other-text", "F", "R10", ANP, _ENC, "            text.
 # C17-R2: the converter writes the accessor the dep5 reader parses
 V("C17", "converter-writes-whole-license-field", "F", "R2", R + "convert_dep5.py", '"SPDX-License-Identifier": paragraph.license.synopsis,', '"SPDX-License-Identifier": paragraph.license.to_str(),')
 V("C17", "converter-licence-via-cast", "S", "", R + "convert_dep5.py", '"SPDX-License-Identifier": paragraph.license.synopsis,', '"SPDX-License-Identifier": cast(str, paragraph.license.synopsis),')
+# round 8: declarative parts
+V("C18", "alias-not-a-flag", "F", "H", R + "cli/spdx.py", '    "add_license_concluded",\n    is_flag=True,\n    hidden=True,\n', '    "add_license_concluded",\n    hidden=True,\n')
+V("C10", "copyright-option-not-multiple", "F", "H", CAP, '    metavar=_("COPYRIGHT"),\n    type=str,\n    multiple=True,\n', '    metavar=_("COPYRIGHT"),\n    type=str,\n')
+V("C03", "git-ignored-query-with-cached", "F", "R5", R + "vcs.py", '            "--others",\n', '            "--others",\n            "--cached",\n')
+V("C03", "vcs-environment-replaced", "F", "R5", R + "_util.py", "        cwd=str(cwd),\n        **kwargs,\n", "        cwd=str(cwd),\n        env={\"LC_ALL\": \"C\"},\n        **kwargs,\n")
+V("C03", "vcs-environment-extended", "S", "", R + "_util.py", "        cwd=str(cwd),\n        **kwargs,\n", "        cwd=str(cwd),\n        env={**os.environ, \"LC_ALL\": \"C\"},\n        **kwargs,\n")
+V("C06", "parser-with-symbol-table", "F", "R5", R + "__init__.py", "_LICENSING = Licensing()", "_LICENSING = Licensing([\"MIT\"])")
+V("C17", "toml-reader-simple-tokenizer", "F", "R7", R + "global_licensing.py", "            result.add(_LICENSING.parse(expression))\n", "            result.add(_LICENSING.parse(expression, simple=True))\n")
+V("C18", "output-not-lazy", "F", "R8", R + "cli/spdx.py", 'type=click.File("w", encoding="utf-8", lazy=True),', 'type=click.File("w", encoding="utf-8"),')
+V("C16", "format-spec-on-path", "F", "R6", R + "report.py", "Unexpected error occurred while parsing '{path}'", "Unexpected error occurred while parsing '{path:s}'")
+V("C16", "format-spec-after-conversion", "S", "", R + "report.py", "Unexpected error occurred while parsing '{path}'", "Unexpected error occurred while parsing '{path!s:s}'")
+V("C14", "toml-directory-normalised", "F", "R13", R + "global_licensing.py", "        return PurePath(self.source).parent\n", "        import os\n        return PurePath(os.path.normpath(self.source)).parent\n")
+V("C07", "c-terminator-with-blank", "F", "R8", R + "comment.py", '    SHORTHAND = "c"\n\n    MULTI_LINE = MultiLineSegments("/*", "*", "*/")\n    INDENT_BEFORE_MIDDLE = " "\n    INDENT_AFTER_MIDDLE = " "\n    INDENT_BEFORE_END = " "\n', '    SHORTHAND = "c"\n\n    MULTI_LINE = MultiLineSegments("/*", "*", " */")\n    INDENT_BEFORE_MIDDLE = " "\n    INDENT_AFTER_MIDDLE = " "\n')
+V("C04", "enum-alias", "F", "H", R + "__init__.py", 'DOT_LICENSE = "dot-license"', 'DOT_LICENSE = "file-header"')
 
